@@ -27,6 +27,12 @@ const (
 	c06Handler = "lib/util/lifted/influx/httpd/handler.go"
 	c06Util    = "lib/util/util.go"
 	c06Record  = "lib/record/record_group.go"
+	c06PW      = "coordinator/points_writer.go"
+	c06WH      = "coordinator/write_helper.go"
+	c06Data    = "lib/util/lifted/influx/meta/data.go"
+	c06Valid   = "lib/util/lifted/influx/meta/validator.go"
+	c06Time    = "lib/util/lifted/influxdb/models/time.go"
+	c06RP      = "lib/util/lifted/influx/meta/retentionpolicy.go"
 )
 
 // iotaEnum returns the names of the const block whose first spec has the given type, in order.
@@ -517,6 +523,100 @@ func genC06(g *Gen) error {
 		}
 		g.P("def fp_%s : String := %s", fn[2], leanStr(fp))
 	}
+	// ---- behind the parser: handler glue, points writer, catalogue, splitter (Store.lean, Split.lean) ----
+	for _, fn := range [][3]string{
+		{c06Handler, "Handler.serveWrite", "serveWrite"},
+		{c06Handler, "Handler.serveWriteV1", "serveWriteV1"},
+		{c06Handler, "Handler.serveWriteV2", "serveWriteV2"},
+		{c06Handler, "bucket2dbrp", "bucket2dbrp"},
+		{c06Handler, "convertToEpoch", "convertToEpoch"},
+		{c06Stream, "ReadLinesBlockExt", "ReadLinesBlockExt"},
+		{c06Stream, "streamContext.Read", "streamContext_Read"},
+		{c06PW, "fixFields", "fixFields"},
+		{c06PW, "dropFieldByIndex", "dropFieldByIndex"},
+		{c06PW, "dropTagByIndex", "dropTagByIndex"},
+		{c06PW, "PointsWriter.routeAndMapOriginRows", "routeAndMapOriginRows"},
+		{c06PW, "PointsWriter.writePointRows", "writePointRows"},
+		{c06WH, "writeHelper.updateSchemaCheck", "updateSchemaCheck"},
+		{c06WH, "writeHelper.updateSchemaIfNeeded", "updateSchemaIfNeeded"},
+		{c06Data, "Data.UpdateSchema", "Data_UpdateSchema"},
+		{c06Data, "checkFieldsToCreate", "checkFieldsToCreate"},
+		{c06Valid, "ValidMeasurementName", "ValidMeasurementName"},
+		{c06Valid, "validName", "validName"},
+		{c06Parser, "Row.CheckDuplicateTag", "Row_CheckDuplicateTag"},
+		{c06RP, "shardGroupDuration", "shardGroupDuration"},
+		{c06Time, "CheckTime", "CheckTime"},
+	} {
+		fp, err := g.Fingerprint(fn[0], fn[1])
+		if err != nil {
+			return err
+		}
+		g.P("def fp_%s : String := %s", fn[2], leanStr(fp))
+	}
+	g.P("")
+	// the characters a measurement name must not hold
+	src, err := g.Const(c06Valid, "unsupportedCharsInMstName")
+	if err != nil {
+		return err
+	}
+	un, err := strconv.Unquote(src)
+	if err != nil {
+		return fmt.Errorf("unsupportedCharsInMstName: %v", err)
+	}
+	lb, err := bytesOf(src)
+	if err != nil {
+		return err
+	}
+	g.P("/-- `unsupportedCharsInMstName` = %s -/", strconv.Quote(un))
+	g.P("def unsupportedMstChars : List UInt8 := %s", lb)
+	// the supported time range
+	for _, c := range [][2]string{{"MinNanoTime", "minNanoTimeGen"}, {"MaxNanoTime", "maxNanoTimeGen"}} {
+		src, err := g.Const(c06Time, c[0])
+		if err != nil {
+			return err
+		}
+		src = strings.ReplaceAll(src, "math.MinInt64", "(-9223372036854775808)")
+		src = strings.ReplaceAll(src, "math.MaxInt64", "9223372036854775807")
+		v, err := g.c06EvalExpr(c06Time, src, 0)
+		if err != nil {
+			return err
+		}
+		iv, err := c06ConstInt(v)
+		if err != nil {
+			return err
+		}
+		g.P("def %s : Int := %s", c[1], iv)
+	}
+	// the query parameters of the write entrances, in the order the code reads them:
+	// serveWriteV1 hands (db, rp) to serveWrite, serveWriteV2 splits bucket, serveWrite reads precision
+	var names []string
+	for _, fn := range []string{"Handler.serveWriteV1", "Handler.serveWriteV2", "Handler.serveWrite"} {
+		fd, err := g.Func(c06Handler, fn)
+		if err != nil {
+			return err
+		}
+		ast.Inspect(fd.Body, func(n ast.Node) bool {
+			ce, ok := n.(*ast.CallExpr)
+			if !ok || len(ce.Args) != 1 {
+				return true
+			}
+			se, ok := ce.Fun.(*ast.SelectorExpr)
+			if !ok || se.Sel.Name != "Get" {
+				return true
+			}
+			recv := g.Src(se.X)
+			if recv != "r.URL.Query()" && recv != "urlValues" {
+				return true
+			}
+			if bl, ok := ce.Args[0].(*ast.BasicLit); ok && bl.Kind == token.STRING {
+				if u, err := strconv.Unquote(bl.Value); err == nil {
+					names = append(names, u)
+				}
+			}
+			return true
+		})
+	}
+	g.StrList("writeParamNames", names)
 	g.Footer()
 	return nil
 }
